@@ -28,7 +28,9 @@ RULE = ("one run = one graph (type simple/digraph/dag/bipartite, 0..34 "
         "and complete graphs), stored in one supported format (by name or "
         "stream, explicit format or extension), optionally damaged (stored "
         "bytes: 12 kinds incl. blank and comment lines; device: short reads, "
-        "EIO), loaded back (readGraph / from_file) and compared; config "
+        "EIO), loaded back (readGraph / from_file) and compared; the graph "
+        "just read may be converted into 1-2 further formats (write, read, "
+        "write, read) and graph names may span several lines; config "
         "'truncate' enumerates truncation at every byte offset for the "
         "in-house formats; config 'text' feeds assembled texts. Non-trivial: "
         "graph has >= 1 edge; distinct = distinct (stored bytes, type, "
